@@ -69,10 +69,32 @@ replay)
 	exit $?
 	;;
 selftest)
-	WHAT="${2:-determinism}"
-	build race
-	"$SCRATCH/bin/verif" selftest "$WHAT"
-	exit $?
+	# Determinism self-test: the same VERIF_SEED values, executed in separate
+	# processes, twice each, at GOMAXPROCS 1, 4 and 16, must give identical
+	# run signatures, step counts, tape lengths and (non-race) verdicts.
+	RUNS="${2:-30}"
+	rc=0
+	for kind in plain race; do
+		build $kind
+		if [ $kind = race ]; then ids="C12 C20"; export GORACE="halt_on_error=0 suppress_equal_stacks=0 suppress_equal_addresses=0 exitcode=0 log_path=$SCRATCH/race"; else ids="C03 C06 C11 C14 C16 C19"; fi
+		for id in $ids; do
+			for seed in 1 7; do
+				ref=""
+				for gmp in 1 4 16; do
+					for rep in a b; do
+						out="$SCRATCH/sigs.$id.$seed.$gmp.$rep"
+						GOMAXPROCS=$gmp "$SCRATCH/bin/verif" sigs "$id" "$seed" "$RUNS" quick >"$out" 2>/dev/null || { echo "FATAL sigs $id failed"; rc=2; }
+						if [ -z "$ref" ]; then ref="$out"; elif ! cmp -s "$ref" "$out"; then
+							echo "NONDETERMINISTIC $id seed=$seed GOMAXPROCS=$gmp rep=$rep:"; diff "$ref" "$out" | head -6; rc=2
+						fi
+					done
+				done
+				echo "deterministic: $id seed=$seed runs=$RUNS x 6 processes (GOMAXPROCS 1/4/16, twice)"
+			done
+		done
+		rm -rf "$SCRATCH/ggql" "$SCRATCH/bin"
+	done
+	exit $rc
 	;;
 *)
 	echo "usage: run.sh check <ID> [quick|thorough] | replay <file> | selftest [what]"
